@@ -28,7 +28,7 @@ for n in names:
             results[n] = {'property': pid, 'status': 'patch does not apply to ' + head, 'detail': p.stderr[-300:]}
             print(n, results[n]['status'])
             continue
-        env = dict(os.environ, VERIF_REPO=wt)
+        env = dict(os.environ, VERIF_REPO=wt, VERIF_EVIDENCE_DIR=wt + '/.verif_evidence')
         t0 = time.time()
         p = subprocess.run([os.path.join(ROOT, 'check'), pid, '--tier', tier], cwd=ROOT, env=env, capture_output=True, text=True)
         out = p.stdout
